@@ -28,6 +28,12 @@ for pid in allids:
     if pid not in claimed:
         not_applicable.append({"property_id": pid, "reason": na.get(pid, "not yet served by a check in this revision (framework under construction; see DESIGN.md section 5 for the plan)")})
 hooks = json.load(open(os.path.join(ROOT, "props", "hooks.json")))
+import subprocess
+try:
+    out = subprocess.run(["git", "-C", "/repo", "log", "--format=%H %s"], capture_output=True, text=True).stdout
+    hooks["source_commits"] = [l.split()[0] for l in out.splitlines() if l.split(" ", 1)[1].startswith("verif hook")]
+except Exception:
+    pass
 m = {
     "version": 1,
     "setup_cmd": "./setup.sh",
